@@ -34,11 +34,7 @@ func (h *hist) commit(op *pendingOp) (err error, alive bool) {
 	}
 	h.raw = append(h.raw, raw)
 	idx := len(h.raw) - 1
-	if h.tree != nil && h.tree.liveAcl != nil {
-		if lerr := h.tree.liveAcl.AddRawRecord(raw); lerr != nil {
-			h.violate("keys.tree-live", fmt.Sprintf("the owner's live AclList rejects accepted record %d: %v", idx, lerr))
-		}
-	}
+	h.feedAcl(raw, idx)
 	h.trace = append(h.trace, fmt.Sprintf("%d:%s", idx, op.name))
 	data, _, derr := decodeData(raw)
 	if derr != nil {
@@ -278,6 +274,12 @@ func (h *hist) oracle() {
 		for _, l := range []list.AclList{h.views[a], h.cviews[a], h.acceptor} {
 			if id := l.AclState().CurrentReadKeyId(); id != h.gens[cur].recId {
 				h.violate("keys.current-id", fmt.Sprintf("after record %d account %d: CurrentReadKeyId is not the latest rotation record", last, a))
+			}
+		}
+		if h.tree != nil {
+			// the long-lived AclList of the account (fed record by record) must agree with a fresh build
+			if lrow := h.keyRow(h.tree.reps[a].acl); lrow != crow {
+				h.violate("keys.live-acl", fmt.Sprintf("after record %d account %d: its long-lived AclList holds %s, a fresh build from the raw log holds %s", last, a, lrow, crow))
 			}
 		}
 		clos := boolRow(h.closure([]int{a}))
